@@ -40,7 +40,6 @@ func bigDec(s string) *big.Int {
 
 var (
 	pEd     = new(big.Int).Sub(new(big.Int).Lsh(big.NewInt(1), 255), big.NewInt(19))
-	pE382   = new(big.Int).Sub(new(big.Int).Lsh(big.NewInt(1), 382), big.NewInt(105))
 	pP256   = bigDec("115792089210356248762697446949407573530086143415290314195533631308867097853951")
 	pBN256  = bigDec("65000549695646603732796438742359905742825358107623003571877145026864184071783")
 	pBN254  = bigDec("21888242871839275222246405745257275088696311157297823662689037894645226208583")
@@ -52,10 +51,11 @@ var (
 )
 
 func layoutOf(name string, size int) layout {
+	if l, ok := extraLayout[name]; ok {
+		return l
+	}
 	switch {
-	case name == "vartime.proj-E382":
-		return layout{0, 48, 1, true, pE382, 0x80}
-	case name == "ed25519" || name == "ed25519+vartime" || name == "ed25519vartime-pkg" || name == "vartime.ext-ed25519":
+	case name == "ed25519" || name == "ed25519+vartime" || name == "ed25519vartime-pkg":
 		return layout{0, 32, 1, true, pEd, 0x80}
 	case name == "p256":
 		return layout{1, 32, 2, false, pP256, 0}
@@ -132,9 +132,12 @@ func (l layout) getCoord(enc []byte, i int) *big.Int {
 }
 
 // lengths to probe: every length 0..2*size+40 in the thorough tier, a sample in the quick tier.
+// sampleLengths is set while the inputs of a parameter-sweep instance are generated.
+var sampleLengths bool
+
 func lengths(r *vh.Rng, size int, thorough bool) []int {
 	max := 2*size + 40
-	if thorough || max <= 140 {
+	if thorough || (max <= 140 && !sampleLengths) {
 		out := make([]int, 0, max+1)
 		for i := 0; i <= max; i++ {
 			out = append(out, i)
@@ -187,6 +190,13 @@ func validEncodings(r *vh.Rng, in grpprog.Inst, n int) [][]byte {
 		k := r.EdgeScalar(q)
 		vh.Try(func() { add(g.Point().Mul(grpprog.MkScalar(g, k), nil)) })
 	}
+	// what Pick / Embed hand out must decode to members as well
+	// (a residue group picks by rejection: hopeless for a large cofactor, by design)
+	if rp, ok := resParams[in.Name]; !ok || rp.R.BitLen() <= 6 {
+		st := vh.NewSeqStream(r.Bytes(16))
+		vh.Try(func() { add(g.Point().Pick(st)) })
+		vh.Try(func() { add(g.Point().Embed([]byte{1, 2, 3}, st)) })
+	}
 	return out
 }
 
@@ -194,6 +204,8 @@ func validEncodings(r *vh.Rng, in grpprog.Inst, n int) [][]byte {
 func pointInputs(r *vh.Rng, in grpprog.Inst, thorough bool, nvalid, nflip int) []input {
 	size := in.G.PointLen()
 	l := layoutOf(in.Name, size)
+	sampleLengths = lightGroup[in.Name]
+	defer func() { sampleLengths = false }()
 	var ins []input
 	for _, n := range lengths(r, size, thorough) {
 		ins = append(ins, input{"len/random", r.Bytes(n)})
@@ -274,6 +286,12 @@ func pointInputs(r *vh.Rng, in grpprog.Inst, thorough bool, nvalid, nflip int) [
 			}
 		}
 	}
+	if rp, ok := resParams[in.Name]; ok {
+		ins = append(ins, residueSpecials(r, rp, size, nvalid+2)...)
+	}
+	if in.Name == "qr512" {
+		ins = append(ins, residueSpecials(r, resParam{pQR512, qQR512, big.NewInt(2)}, size, nvalid)...)
+	}
 	// fixed small points
 	if l.prefix == 1 {
 		for _, xy := range [][2]int64{{1, 1}, {0, 1}, {1, 0}, {0, 0}, {2, 3}} {
@@ -341,7 +359,10 @@ func scalarInputs(r *vh.Rng, g kyber.Group, thorough bool, n int) []input {
 	le := g.Scalar().ByteOrder() == kyber.LittleEndian
 	var ins []input
 	for _, L := range lengths(r, size, thorough) {
-		ins = append(ins, input{"len/random", r.Bytes(L)}, input{"len/all-00", fill(L, 0)}, input{"len/all-ff", fill(L, 0xff)})
+		ins = append(ins, input{"len/random", r.Bytes(L)})
+		if thorough || L <= size+4 || L%8 == 0 || L >= 2*size {
+			ins = append(ins, input{"len/all-00", fill(L, 0)}, input{"len/all-ff", fill(L, 0xff)})
+		}
 	}
 	enc := func(v *big.Int) []byte {
 		if v.BitLen() > 8*size {
